@@ -174,7 +174,7 @@ fn run_queue_rerank(sh: u8) {
   }); }); });
   ::std::mem::forget(store);
 }
-//@h props=C04 tier=quick unwind=14 stubs=sort,boxslice timeout=2400 fieldsens=1024
+//@h props=C04:t tier=quick unwind=14 stubs=sort,boxslice timeout=2400 fieldsens=1024
 fn bu_queue_rerank_between_operations_pairs() { run_queue_rerank(3); }
 //@h props=C04:t tier=thorough unwind=14 stubs=sort,boxslice timeout=2400 fieldsens=1024
 fn bu_queue_rerank_between_operations_independent() { run_queue_rerank(4); }
